@@ -65,18 +65,18 @@ def obligations(tier, seed):
     pointless = list(families.c16_pointless_skeletons())
     loopv = list(poolfam.loopvar_skeletons())
     if quick:
-        sks = (rnd.sample(hv, 70) + gr + rnd.sample(lit, 25) + rnd.sample(c17, 25) + rnd.sample(pointless, 15) + loopv)
+        sks = (rnd.sample(hv, 60) + gr[:30] + rnd.sample(lit, 20) + rnd.sample(c17, 12) + rnd.sample(pointless, 12) + loopv)
     else:
-        sks = hv + gr + lit[::2] + c17[::2] + pointless + loopv
+        sks = hv + gr + lit[::5] + c17[::6] + pointless[::2] + loopv
     obs = []
-    full = set(id(s) for s in (rnd.sample(sks, 10) if quick else rnd.sample(sks, 120)))
+    full = set(id(s) for s in (rnd.sample(sks, 6) if quick else rnd.sample(sks, 60)))
     base = [OPTS[0], OPTS[8]]  # safe / unsafe with defaults
     for sk in sks:
         combos = OPTS if id(sk) in full else base
         for o in combos:
             tr = _tname(sk, o)
             obs.append(Obligation("fc/%s/%s" % (_oid(o), sk.sid), pool.ob_tv,
-                                  dict(skeleton=sk.to_json(), transform=tr, budget_s=90.0, max_cex=3, max_paths=400),
+                                  dict(skeleton=sk.to_json(), transform=tr, budget_s=60.0, max_cex=3, max_paths=250 if quick else 400),
                                   hard_timeout=150, sample={"program": sk.text[-400:], "options": o}))
     return obs
 
